@@ -7,21 +7,24 @@ Open Scope string_scope.
 Open Scope nat_scope.
 
 (* ------------------------------------------------------------------ obligations on the generated constants *)
-Lemma gen_glue_ok : glue_test = ";" /\ glue_and = " and " /\ glue_semi = "; ".
+Lemma gen_glue_ok :
+  glue_test = ";" /\ glue_test_char = ";"%char /\ glue_own_open = "; (" /\ glue_own_close = ") and " /\ glue_semi = "; ".
 Proof. repeat split. Qed.
 Lemma gen_key_ok :
-  key_prefix = "extra==""" /\ key_suffix = """" /\ key_esc_from = """" /\ key_env_prefix = ":".
+  key_prefix = "extra==""" /\ key_suffix = """" /\ key_esc_from = """" /\ key_sep_char = ":"%char
+  /\ key_env_open = "(" /\ key_env_close = ")" /\ key_join = " and ".
 Proof. repeat split. Qed.
 
 Lemma gen_dispatch_ok :
   archive_exts_zip = [".zip"] /\ archive_exts_tar = [".gz"; ".bz2"; ".tgz"] /\ pyproject_only_for_dirs = true
+  /\ cfg_only_dir_follows_cfg = true
   /\ name_repl_from = " "%char /\ name_repl_to = "-"%char /\ frameworks = ["pbr"; "d2to1"; "use_pyscaffold"].
 Proof. repeat split. Qed.
 
 (* ------------------------------------------------------------------ gluing two marker texts *)
 Lemma pmt_glue A B la lb :
   parse_marker_text A = POk la -> parse_marker_text B = POk lb ->
-  parse_marker_text (A ++ glue_and ++ B) = POk (mapp la CAnd lb).
+  parse_marker_text (A ++ " and " ++ B) = POk (mapp la CAnd lb).
 Proof.
   unfold parse_marker_text. intros HA HB.
   destruct (lex A) as [[|] | ta] eqn:LA; try discriminate.
@@ -38,6 +41,28 @@ Qed.
 
 Lemma pmt_space s : parse_marker_text (String " "%char s) = parse_marker_text s.
 Proof. unfold parse_marker_text. now rewrite lex_space. Qed.
+
+Lemma pmt_paren A la :
+  parse_marker_text A = POk la -> parse_marker_text ("(" ++ A ++ ")") = POk (MOne (MGroup la)).
+Proof.
+  unfold parse_marker_text. intros HA.
+  destruct (lex A) as [[|] | ta] eqn:LA; try discriminate.
+  rewrite (lex_paren _ _ LA).
+  destruct (parse_list (S (List.length ta)) ta) as [[l0 [|x r0]]| | |] eqn:PA; try discriminate.
+  inversion HA; subst.
+  assert (F : parse_list (S (S (List.length ta))) (ta ++ [TR])%list = POk (l0, [TR])).
+  { apply (parse_list_mono_le (S (List.length ta))); [lia|]. now apply parse_list_app_end. }
+  replace (S (List.length (TL :: ta ++ [TR])%list)) with (S (S (S (List.length ta))))
+    by (cbn [List.length]; rewrite app_length; cbn; lia).
+  change (parse_list (S (S (S (List.length ta)))) (TL :: ta ++ [TR])%list)
+    with (match parse_atom_with (parse_list (S (S (List.length ta)))) (TL :: ta ++ [TR])%list with
+          | POk (m, TConn c :: r) =>
+              match parse_list (S (S (List.length ta))) r with
+              | POk (l, r') => POk (MCons m c l, r') | PErr => PErr | PUn => PUn | PFuel => PFuel end
+          | POk (m, r) => POk (MOne m, r)
+          | PErr => PErr | PUn => PUn | PFuel => PFuel end).
+  cbn [parse_atom_with]. rewrite F. reflexivity.
+Qed.
 
 (* ------------------------------------------------------------------ the text of a plain key *)
 Definition key_plain (e : string) : Prop := all_chars key_char_ok e = true.
@@ -104,21 +129,33 @@ Proof.
   cbn [lrun]. fold (rev_str e). rewrite rev_str_invol. reflexivity.
 Qed.
 
-Lemma pmt_key_text e :
-  key_plain e ->
-  parse_marker_text (key_marker_text e)
-  = POk (MOne (MAtom (mkAtom (OVar "extra") "==" (OLit (canon_name e))))).
+Lemma extra_text_facts x :
+  all_chars key_char_ok x = true ->
+  let T := key_prefix ++ replace key_esc_from key_esc_to x ++ key_suffix in
+  parse_marker_text T = POk (MOne (extra_atom x))
+  /\ has_char "#"%char T = false
+  /\ T = (key_prefix ++ x) ++ String dq "".
 Proof.
-  intros H. destruct (key_char_ok_weaken _ H) as [_ [Hd [Hc _]]].
-  unfold key_marker_text.
-  assert (Hs : startswith e key_env_prefix = false).
-  { change key_env_prefix with ":". destruct e as [|c e]; [reflexivity|].
-    cbn in Hc. apply orb_false_elim in Hc. destruct Hc as [Hc _].
-    unfold startswith. cbn. now rewrite Hc. }
-  rewrite Hs. change key_esc_from with (String dq ""). rewrite (replace_absent dq _ _ Hd).
-  unfold parse_marker_text. rewrite (lex_key_text _ H). reflexivity.
+  intros H. destruct (key_char_ok_weaken _ H) as [_ [Hd [_ Hh]]].
+  cbv zeta. change key_esc_from with (String dq ""). rewrite (replace_absent dq _ _ Hd).
+  split; [|split].
+  - unfold parse_marker_text. rewrite (lex_key_text _ H). reflexivity.
+  - rewrite !has_char_app, Hh. reflexivity.
+  - change key_suffix with (String dq ""). now rewrite sapp_assoc.
 Qed.
 
+Lemma env_text_facts t k :
+  parse_marker_text t = POk k -> has_char "#"%char t = false ->
+  let T := key_env_open ++ t ++ key_env_close in
+  parse_marker_text T = POk (MOne (MGroup k))
+  /\ has_char "#"%char T = false
+  /\ T = ("(" ++ t) ++ String ")"%char "".
+Proof.
+  intros Hp Hh. cbv zeta. change key_env_open with "(". change key_env_close with ")".
+  split; [now apply pmt_paren | split].
+  - change ("(" ++ t ++ ")") with (String "("%char (t ++ ")")). cbn [has_char]. rewrite has_char_app, Hh. reflexivity.
+  - now rewrite sapp_assoc.
+Qed.
 
 (* ------------------------------------------------------------------ requirement heads *)
 Lemma head_char_facts c :
@@ -182,92 +219,96 @@ Proof.
   now rewrite pmt_space.
 Qed.
 
-(* ------------------------------------------------------------------ the guard *)
-Definition simple (l : mlist) : Prop := has_or l = false /\ (forall g, l <> MOne (MGroup g)).
-Definition marker_stable (m : mlist) : Prop := parse_marker_text (fmt_list true m) = POk m.
-
-Definition marker_ok (m : mlist) : Prop :=
-  marker_stable m /\ simple m /\ has_char "#"%char (fmt_list true m) = false.
-
-Definition key_ok (q : preq) (e : string) : Prop :=
-  (e <> "" /\ key_plain e)
-  \/ (exists t t' c k, e = String ":"%char t /\ t = t' ++ String c "" /\ is_space c = false
-        /\ has_char "#"%char t = false /\ parse_marker_text t = POk k
-        /\ (r_marker q = None \/ simple k)).
-
-Definition pair_ok (q : preq) (e : string) : Prop :=
-  head_ok (r_head q) = true
-  /\ match r_marker q with None => True | Some m => marker_ok m end
-  /\ key_ok q e.
-
-Lemma simple_id l : simple l -> wrap (unwrap l) = l.
+(* ------------------------------------------------------------------ composing with the requirement's own marker *)
+Lemma compose_none h J J' c lj :
+  head_ok h = true -> J = J' ++ String c "" -> is_space c = false -> has_char "#"%char J = false ->
+  parse_marker_text J = POk lj ->
+  parse_req_text (compose_text h J) = ROk (mkReq h (Some lj)).
 Proof.
-  intros [H1 H2]. assert (U : unwrap l = l).
-  { destruct l as [[a|g]|m c r]; try reflexivity. exfalso. now apply (H2 g). }
-  rewrite U. unfold wrap. now rewrite H1.
-Qed.
-
-Lemma combine_agree q e : pair_ok q e -> combine_code q e = combine_decl q e.
-Proof.
-  destruct q as [h mo]. unfold pair_ok. cbn [r_head r_marker]. intros [Hh [Hm Hk]].
+  intros Hh HJ Hc Hjh Hp.
   destruct (head_ok_inv _ Hh) as [c0 [h' [Eh [Hs [Hhash Hall]]]]].
   destruct (head_chars_facts _ Hall) as [Hsemi [Hhh Hws]].
-  unfold combine_code, combine_decl, compose_text, print_req. cbn [r_head r_marker].
-  change glue_test with (String ";"%char "").
-  destruct Hk as [[Hne Hp] | [t [t' [c [k [Ee [Et [Hc [Hth [Hpk Hsk]]]]]]]]]].
-  - (* plain key *)
-    destruct (key_char_ok_weaken _ Hp) as [_ [Hd [Hcol Hhe]]].
-    assert (Kx : key_extra e = e) by (unfold key_extra; now rewrite (partition_char_none _ _ Hcol)).
-    assert (Kv : key_env_text e = None) by (unfold key_env_text; now rewrite (partition_char_none _ _ Hcol)).
-    rewrite Kx, Kv.
-    assert (Ene : String.eqb e "" = false) by (destruct e; [contradiction | reflexivity]).
-    rewrite Ene.
-    assert (Kt : key_marker_text e = key_prefix ++ e ++ key_suffix).
-    { unfold key_marker_text.
-      assert (Hsw : startswith e key_env_prefix = false).
-      { change key_env_prefix with ":". destruct e as [|c1 e1]; [reflexivity|].
-        cbn [has_char] in Hcol. apply orb_false_elim in Hcol. destruct Hcol as [Hc1 _].
-        unfold startswith. cbn [prefixb]. now rewrite Hc1. }
-      rewrite Hsw. change key_esc_from with (String dq ""). now rewrite (replace_absent dq _ _ Hd). }
-    assert (Kh : has_char "#"%char (key_marker_text e) = false).
-    { rewrite Kt, !has_char_app, Hhe. reflexivity. }
-    assert (Kend : key_marker_text e = (key_prefix ++ e) ++ String dq "").
-    { rewrite Kt. now rewrite sapp_assoc. }
-    destruct mo as [m|].
-    + destruct Hm as [Hst [Hsi Hmh]].
-      rewrite containsb_char, !has_char_app. cbn [has_char]. rewrite Ascii.eqb_refl. rewrite orb_true_r. cbn [orb].
-      change (String ";"%char (String " "%char "")) with glue_semi.
-      rewrite !sapp_assoc.
-      rewrite (prt_compose h (fmt_list true m ++ glue_and ++ key_marker_text e)
-                 (fmt_list true m ++ glue_and ++ key_prefix ++ e) dq Hh).
-      * rewrite (pmt_glue _ _ _ _ Hst (pmt_key_text _ Hp)).
-        cbn [conj]. rewrite (simple_id _ Hsi). reflexivity.
-      * rewrite Kend. now rewrite !sapp_assoc.
-      * reflexivity.
-      * rewrite !has_char_app, Hmh, Kh. reflexivity.
-    + rewrite containsb_char, Hsemi.
-      rewrite (prt_compose h (key_marker_text e) (key_prefix ++ e) dq Hh Kend eq_refl Kh).
-      rewrite (pmt_key_text _ Hp). reflexivity.
-  - (* ":marker" key *)
-    subst e.
-    assert (Kt : key_marker_text (String ":"%char t) = t) by reflexivity.
-    assert (Kx : key_extra (String ":"%char t) = "") by reflexivity.
-    assert (Kv : key_env_text (String ":"%char t) = Some t) by reflexivity.
-    rewrite Kt, Kx, Kv, Hpk. cbn [String.eqb].
-    destruct mo as [m|].
-    + destruct Hm as [Hst [Hsi Hmh]].
-      destruct Hsk as [Habs | Hsk]; [discriminate|].
-      rewrite containsb_char, !has_char_app. cbn [has_char]. rewrite Ascii.eqb_refl. rewrite orb_true_r. cbn [orb].
-      change (String ";"%char (String " "%char "")) with glue_semi.
-      rewrite !sapp_assoc.
-      rewrite (prt_compose h (fmt_list true m ++ glue_and ++ t) (fmt_list true m ++ glue_and ++ t') c Hh).
-      * rewrite (pmt_glue _ _ _ _ Hst Hpk).
-        cbn [conj]. rewrite (simple_id _ Hsi), (simple_id _ Hsk). reflexivity.
-      * rewrite Et. now rewrite !sapp_assoc.
-      * exact Hc.
-      * rewrite !has_char_app, Hmh, Hth. reflexivity.
-    + rewrite containsb_char, Hsemi.
-      rewrite (prt_compose h t t' c Hh Et Hc Hth), Hpk. reflexivity.
+  unfold compose_text. change glue_test with (String ";"%char ""). rewrite containsb_char, Hsemi.
+  rewrite (prt_compose h J J' c Hh HJ Hc Hjh), Hp. reflexivity.
+Qed.
+
+Lemma compose_own h m J J' c lj :
+  head_ok h = true -> marker_ok_b m = true ->
+  J = J' ++ String c "" -> is_space c = false -> has_char "#"%char J = false ->
+  parse_marker_text J = POk lj ->
+  parse_req_text (compose_text (h ++ "; " ++ fmt_list true m) J)
+  = ROk (mkReq h (Some (mapp (MOne (MGroup m)) CAnd lj))).
+Proof.
+  intros Hh Hm HJ Hc Hjh Hp.
+  destruct (head_ok_inv _ Hh) as [c0 [h' [Eh [Hs [Hhash Hall]]]]].
+  destruct (head_chars_facts _ Hall) as [Hsemi [Hhh Hws]].
+  unfold marker_ok_b, marker_stable_b in Hm. apply andb_prop in Hm as [Hst Hmh]. apply negb_true_iff in Hmh.
+  destruct (parse_marker_text (fmt_list true m)) as [m'| | |] eqn:Pm; try discriminate.
+  assert (Em : m' = m) by now apply mlist_eqb_eq.
+  subst m'.
+  unfold compose_text. change glue_test with (String ";"%char "").
+  rewrite containsb_char, !has_char_app. cbn [has_char]. rewrite Ascii.eqb_refl, orb_true_r. cbn [orb].
+  change glue_test_char with ";"%char.
+  change (h ++ "; " ++ fmt_list true m) with (h ++ String ";"%char (" " ++ fmt_list true m)).
+  rewrite (partition_char_app _ _ _ Hsemi).
+  change glue_own_open with "; (". change glue_own_close with ") and ".
+  assert (Etext : h ++ "; (" ++ (" " ++ fmt_list true m) ++ ") and " ++ J
+                  = h ++ glue_semi ++ (("(" ++ (" " ++ fmt_list true m) ++ ")") ++ " and " ++ J)).
+  { change glue_semi with "; ". cbn [append]. rewrite !sapp_assoc. reflexivity. }
+  rewrite Etext.
+  rewrite (prt_compose h (("(" ++ (" " ++ fmt_list true m) ++ ")") ++ " and " ++ J)
+             (("(" ++ (" " ++ fmt_list true m) ++ ")") ++ " and " ++ J') c Hh).
+  - assert (Pp : parse_marker_text ("(" ++ (" " ++ fmt_list true m) ++ ")") = POk (MOne (MGroup m))).
+    { apply pmt_paren. change (" " ++ fmt_list true m) with (String " "%char (fmt_list true m)). now rewrite pmt_space. }
+    rewrite (pmt_glue _ _ _ _ Pp Hp). reflexivity.
+  - rewrite HJ. now rewrite !sapp_assoc.
+  - exact Hc.
+  - rewrite !has_char_app, Hmh, Hjh. reflexivity.
+Qed.
+
+(* ------------------------------------------------------------------ code = declaration, per requirement and key *)
+Lemma combine_agree q e : pair_ok_b q e = true -> combine_code q e = combine_decl q e.
+Proof.
+  destruct q as [h mo]. unfold pair_ok_b. cbn [r_head r_marker]. intros H.
+  apply andb_prop in H as [H Hk]. apply andb_prop in H as [Hh Hm].
+  unfold key_ok_b in Hk. apply andb_prop in Hk as [Hx Ht].
+  unfold combine_code, combine_decl, key_marker_parts.
+  destruct (key_parts e) as [x t] eqn:KP. cbn [fst snd] in *.
+  change key_join with " and ".
+  destruct (String.eqb (strip t) "") eqn:Et; destruct (String.eqb x "") eqn:Ex; cbn [List.app orb] in *.
+  - (* no marker text at all: the requirement itself *)
+    unfold declared_marker. rewrite Ex. destruct mo as [m|]; reflexivity.
+  - (* extra only *)
+    destruct (extra_text_facts x Hx) as [Pe [He Ee]].
+    cbn [join]. unfold declared_marker. rewrite Ex. cbn [group_of List.app].
+    destruct mo as [m|]; cbn [print_req r_head r_marker group_of List.app and_list].
+    + rewrite (compose_own h m _ (key_prefix ++ x) dq _ Hh Hm Ee eq_refl He Pe). reflexivity.
+    + rewrite (compose_none h _ (key_prefix ++ x) dq _ Hh Ee eq_refl He Pe). reflexivity.
+  - (* environment marker only *)
+    apply andb_prop in Ht as [Hth Htp]. apply negb_true_iff in Hth.
+    destruct (parse_marker_text t) as [k| | |] eqn:Pt; try discriminate.
+    destruct (env_text_facts t k Pt Hth) as [Pe [He Ee]].
+    cbn [join]. unfold declared_marker. rewrite Ex. cbn [group_of List.app].
+    destruct mo as [m|]; cbn [print_req r_head r_marker group_of List.app and_list].
+    + rewrite (compose_own h m _ ("(" ++ t) ")"%char _ Hh Hm Ee eq_refl He Pe). reflexivity.
+    + rewrite (compose_none h _ ("(" ++ t) ")"%char _ Hh Ee eq_refl He Pe). reflexivity.
+  - (* both *)
+    apply andb_prop in Ht as [Hth Htp]. apply negb_true_iff in Hth.
+    destruct (parse_marker_text t) as [k| | |] eqn:Pt; try discriminate.
+    destruct (env_text_facts t k Pt Hth) as [Pe [He Ee]].
+    destruct (extra_text_facts x Hx) as [Px [Hxh Exx]].
+    cbn [join].
+    set (TE := key_env_open ++ t ++ key_env_close) in *.
+    set (TX := key_prefix ++ replace key_esc_from key_esc_to x ++ key_suffix) in *.
+    assert (PJ : parse_marker_text (TE ++ " and " ++ TX) = POk (MCons (MGroup k) CAnd (MOne (extra_atom x))))
+      by (rewrite (pmt_glue _ _ _ _ Pe Px); reflexivity).
+    assert (HJ : has_char "#"%char (TE ++ " and " ++ TX) = false) by (rewrite !has_char_app, He, Hxh; reflexivity).
+    assert (EJ : TE ++ " and " ++ TX = (TE ++ " and " ++ key_prefix ++ x) ++ String dq "")
+      by (rewrite Exx; now rewrite !sapp_assoc).
+    unfold declared_marker. rewrite Ex. cbn [group_of List.app].
+    destruct mo as [m|]; cbn [print_req r_head r_marker group_of List.app and_list].
+    + rewrite (compose_own h m _ _ dq _ Hh Hm EJ eq_refl HJ PJ). reflexivity.
+    + rewrite (compose_none h _ _ dq _ Hh EJ eq_refl HJ PJ). reflexivity.
 Qed.
 
 (* ------------------------------------------------------------------ the whole harvest *)
@@ -303,143 +344,40 @@ Proof.
       destruct (parse_all _) as [base| |]; try reflexivity; now rewrite H.
 Qed.
 
-(* the guard: every requirement of every (effective) extras_require entry is glued safely *)
-Definition decl_ok (d : decl) : Prop :=
-  forall k v qs, In (k, v) (effective_extras d) -> strip k <> "" ->
-    parse_all (req_lines (as_list v)) = ROk qs -> Forall (fun q => pair_ok q (strip k)) qs.
-
-Theorem harvest_exact_partial d : decl_ok d -> harvest d = meta_of_res d.
+(* the guard (decidable, model/HarvestC12.v decl_ok_b): canonical heads, own markers that re-parse to
+   themselves, key names without quote/back-slash/control characters, environment markers that parse.
+   No condition on `or`, none on the key's form ("extra", ":marker", "extra:marker"). *)
+Theorem harvest_exact_guarded d : decl_ok_b d = true -> harvest d = meta_of_res d.
 Proof.
-  intros H. unfold harvest, meta_of_res. apply harvest_with_ext. apply extras_loop_ext.
-  intros k v qs Hin Hne Hp. specialize (H k v qs Hin Hne Hp).
-  eapply Forall_impl; [|exact H]. intros q Hq. now apply combine_agree.
+  unfold decl_ok_b. intros H. unfold harvest, meta_of_res. apply harvest_with_ext. apply extras_loop_ext.
+  intros k v qs Hin Hne Hp.
+  rewrite forallb_forall in H. specialize (H (k, v) Hin). cbn [fst snd] in H.
+  apply String.eqb_neq in Hne. rewrite Hne, Hp in H. cbn [orb] in H.
+  rewrite forallb_forall in H. apply Forall_forall. intros q Hq. apply combine_agree. now apply H.
 Qed.
 
-(* what is NOT covered by the guard - the full statement is false (see the _refuted lemmas) *)
+(* what the guard still excludes (non-canonical spellings, quoted key names): validated by T2 only *)
 Definition harvest_exact_full_statement : Prop := forall d, harvest d = meta_of_res d.
 
-(* the guard is satisfiable by a non-trivial declaration, and the harvest succeeds on it *)
+(* the guard is satisfiable by a non-trivial declaration - `or` markers and an "extra:marker" key
+   included - and the harvest succeeds on it *)
 Definition v12 : version := mkV 0%N [1%N; 2%N] None None None [].
 Definition d_example : decl :=
   mkDecl (Some "foo-bar") (Some (VGood v12))
          (Some (SMany ["a>=1"; "b[x]; python_version > ""3"""]))
-         [("dev", SMany ["c; os_name == ""nt"""; "d"]);
-          (":python_version < ""4""", SMany ["e; os_name == ""posix"" and sys_platform == ""linux"""])]
+         [("dev", SMany ["c; os_name == ""nt"" or os_name == ""posix"""; "d"]);
+          (":python_version < ""4"" or python_version > ""5""", SMany ["e; os_name == ""posix"" and sys_platform == ""linux"""]);
+          ("tst:sys_platform=='linux'", SMany ["f"])]
          false None.
 
 Example harvest_example :
   harvest d_example =
   HOk (mkMeta (Some "foo-bar") (Some v12)
          ["a>=1"; "b[x]; python_version > ""3""";
-          "c; os_name == ""nt"" and extra == ""dev"""; "d; extra == ""dev""";
-          "e; os_name == ""posix"" and sys_platform == ""linux"" and python_version < ""4"""]).
+          "c; (os_name == ""nt"" or os_name == ""posix"") and extra == ""dev"""; "d; extra == ""dev""";
+          "e; (os_name == ""posix"" and sys_platform == ""linux"") and (python_version < ""4"" or python_version > ""5"")";
+          "f; sys_platform == ""linux"" and extra == ""tst"""]).
 Proof. vm_compute. reflexivity. Qed.
-
-Lemma simple_intro l : has_or l = false -> (match l with MOne (MGroup _) => False | _ => True end) -> simple l.
-Proof. intros H1 H2. split; [exact H1|]. intros g E. subst l. exact H2. Qed.
-
-Example decl_ok_example : decl_ok d_example.
-Proof.
-  unfold decl_ok. intros k v qs Hin Hne Hp.
-  cbn in Hin. destruct Hin as [E | [E | []]]; inversion E; subst k v; clear E.
-  - vm_compute in Hp. inversion Hp; subst qs; clear Hp.
-    change (strip "dev") with "dev".
-    apply Forall_cons; [| apply Forall_cons; [| apply Forall_nil]]; unfold pair_ok; cbn [r_head r_marker].
-    + split; [reflexivity|]. split.
-      * split; [vm_compute; reflexivity|]. split; [apply simple_intro; [reflexivity | exact I] | reflexivity].
-      * left. split; [discriminate | reflexivity].
-    + split; [reflexivity|]. split; [exact I|]. left. split; [discriminate | reflexivity].
-  - vm_compute in Hp. inversion Hp; subst qs; clear Hp.
-    change (strip ":python_version < ""4""") with ":python_version < ""4""".
-    apply Forall_cons; [| apply Forall_nil]; unfold pair_ok; cbn [r_head r_marker].
-    split; [reflexivity|]. split.
-    + split; [vm_compute; reflexivity|]. split; [apply simple_intro; [reflexivity | exact I] | reflexivity].
-    + right. exists "python_version < ""4""", "python_version < ""4", dq.
-      eexists. split; [reflexivity|]. split; [reflexivity|]. split; [reflexivity|]. split; [reflexivity|].
-      split; [vm_compute; reflexivity|]. right. apply simple_intro; [reflexivity | exact I].
-Qed.
-
-(* ------------------------------------------------------------------ the boolean guard is sound *)
-Lemma operand_eqb_eq a b : operand_eqb a b = true -> a = b.
-Proof. destruct a, b; cbn; intros H; try discriminate; apply String.eqb_eq in H; now subst. Qed.
-Lemma atom_eqb_eq a b : atom_eqb a b = true -> a = b.
-Proof.
-  destruct a as [l o r], b as [l' o' r']. unfold atom_eqb. cbn. intros H.
-  apply andb_prop in H as [H H3]. apply andb_prop in H as [H1 H2].
-  apply operand_eqb_eq in H1, H3. apply String.eqb_eq in H2. now subst.
-Qed.
-Lemma conn_eqb_eq a b : conn_eqb a b = true -> a = b.
-Proof. destruct a, b; cbn; intros H; try discriminate; reflexivity. Qed.
-
-Lemma mlist_eqb_eq_aux :
-  (forall a : mk, forall b, mk_eqb a b = true -> a = b)
-  /\ (forall a : mlist, forall b, mlist_eqb a b = true -> a = b).
-Proof.
-  apply mk_mlist_mut.
-  - intros a [b|b]; cbn; intros H; [|discriminate]. apply atom_eqb_eq in H. now subst.
-  - intros l IH [b|b]; cbn; intros H; [discriminate|]. apply IH in H. now subst.
-  - intros m IH [b|b c r]; cbn; intros H; [|discriminate]. apply IH in H. now subst.
-  - intros m IHm c r IHr [b|b d s]; cbn; intros H; [discriminate|].
-    apply andb_prop in H as [H H3]. apply andb_prop in H as [H1 H2].
-    apply IHm in H1. apply conn_eqb_eq in H2. apply IHr in H3. now subst.
-Qed.
-Lemma mlist_eqb_eq a b : mlist_eqb a b = true -> a = b.
-Proof. apply mlist_eqb_eq_aux. Qed.
-
-Lemma simple_b_sound l : simple_b l = true -> simple l.
-Proof.
-  unfold simple_b. intros H. apply andb_prop in H as [H1 H2]. apply negb_true_iff in H1.
-  split; [exact H1|]. intros g E. subst l. discriminate.
-Qed.
-
-Lemma marker_ok_b_sound m : marker_ok_b m = true -> marker_ok m.
-Proof.
-  unfold marker_ok_b, marker_ok, marker_stable, marker_stable_b. intros H.
-  apply andb_prop in H as [H H3]. apply andb_prop in H as [H1 H2].
-  split; [|split; [now apply simple_b_sound | now apply negb_true_iff in H3]].
-  destruct (parse_marker_text (fmt_list true m)) as [m'| | |]; try discriminate.
-  apply mlist_eqb_eq in H1. now subst.
-Qed.
-
-Lemma ends_nonspace_sound t : ends_nonspace t = true -> exists t' c, t = t' ++ String c "" /\ is_space c = false.
-Proof.
-  unfold ends_nonspace. destruct (rev_str t) as [|c r] eqn:E; [discriminate|]. intros H.
-  apply negb_true_iff in H. exists (rev_str r), c. split; [|exact H].
-  rewrite <- (rev_str_invol t), E. now rewrite rev_str_cons.
-Qed.
-
-Lemma key_ok_b_sound q e : key_ok_b q e = true -> key_ok q e.
-Proof.
-  unfold key_ok_b, key_ok. intros H. apply orb_prop in H as [H | H].
-  - left. apply andb_prop in H as [H1 H2]. apply negb_true_iff in H1. apply String.eqb_neq in H1.
-    split; [exact H1 | exact H2].
-  - right. destruct e as [|c t]; [discriminate|].
-    apply andb_prop in H as [H H4]. apply andb_prop in H as [H H3]. apply andb_prop in H as [H1 H2].
-    apply Ascii.eqb_eq in H1. subst c. apply negb_true_iff in H3.
-    destruct (ends_nonspace_sound _ H2) as [t' [c [Et Hc]]].
-    destruct (parse_marker_text t) as [k| | |] eqn:P; try discriminate.
-    exists t, t', c, k. repeat split; try assumption.
-    destruct (r_marker q); [right; now apply simple_b_sound | now left].
-Qed.
-
-Lemma pair_ok_b_sound q e : pair_ok_b q e = true -> pair_ok q e.
-Proof.
-  unfold pair_ok_b, pair_ok. intros H.
-  apply andb_prop in H as [H H3]. apply andb_prop in H as [H1 H2].
-  split; [exact H1|]. split; [|now apply key_ok_b_sound].
-  destruct (r_marker q); [now apply marker_ok_b_sound | exact I].
-Qed.
-
-Lemma decl_ok_b_sound d : decl_ok_b d = true -> decl_ok d.
-Proof.
-  unfold decl_ok_b, decl_ok. intros H k v qs Hin Hne Hp.
-  rewrite forallb_forall in H. specialize (H (k, v) Hin). cbn [fst snd] in H.
-  apply String.eqb_neq in Hne. rewrite Hne, Hp in H. cbn [orb] in H.
-  rewrite forallb_forall in H. apply Forall_forall. intros q Hq. apply pair_ok_b_sound. now apply H.
-Qed.
-
-Theorem harvest_exact_guarded d : decl_ok_b d = true -> harvest d = meta_of_res d.
-Proof. intros H. apply harvest_exact_partial. now apply decl_ok_b_sound. Qed.
 
 Example guard_example : decl_ok_b d_example = true.
 Proof. vm_compute. reflexivity. Qed.
